@@ -161,6 +161,17 @@ PROPS["C06"] = dict(
                  "time defects are not judged when CheckLatency=N (the statement conditions them on checking being enabled)"],
 )
 
+PROPS["C07"] = dict(
+    pkg="./props/session", level="exploration", design_ref="DESIGN.md §3 C07",
+    technique="rapid state machine over option combinations and connect/logon/logout/disconnect/reset histories; oracle = justification of every store reset from the statement's conditions, required resets with counter values, stability of counters and stored messages otherwise, forward-only SequenceReset rules",
+    level_note=SESSION_NOTE,
+    stages=[dict(name="rapid", kind="rapid", run="^TestC07_Rapid$", checks=(1500, 30000), shards=(12, 16), timeout=(600, 3000))],
+    require=["history-with:reconnect-at-non-initial-counters", "history-with:reset-negotiated", "history-with:sequence-reset:lower", "history-with:sequence-reset:higher",
+             "history-with:reset-time-crossed", "history-with:logout", "history-with:disconnect", "store:file", "store:memory"],
+    assumptions=["a logout that times out without an answer, and an initiator receiving an unsolicited ResetSeqNumFlag in the Logon answer, are not covered by the statement and only checked for 'no unjustified reset'",
+                 "ResetSeqTime crossings are delivered through CheckResetTime with a virtual clock"],
+)
+
 NOT_APPLICABLE = {}
 
 HOOK_COMMITS = ["ce15100"]
